@@ -1,10 +1,10 @@
 #!/bin/sh
-# Offline setup: pre-build every harness so that the first check does not pay the cold build.
+# Offline setup: pre-build the harness of every check registered in MANIFEST.json so that the
+# first check does not pay the cold build (go1.26.8, module cache only, no network).
 cd "$(dirname "$0")" || exit 1
 mkdir -p .scratch .bin .gocache evidence
 ok=0
-for d in mc/h/*/; do
-  id=$(basename "$d" | tr a-z A-Z)
+for id in $(python3 -c "import json;print(' '.join(c['property_id'] for c in json.load(open('MANIFEST.json'))['checks']))"); do
   ./check "$id" --build-only || ok=1
 done
 exit $ok
